@@ -173,8 +173,11 @@ PROPS['C12'] = {
             'not concerned untouched, the savepoint storage reset to the saved state (an invalidation that is exact '
             'about positions verifies, an off-by-one does not); Connection._commit_savepoint proved - on EVERY exit back on '
             'the real storage with the savepoint storage closed and every created object listed in _creating and every '
-            'index oid in _modified, on normal return every index oid stored in this transaction.',
-    'note': 'Connection.savepoint/_abort_savepoint, Savepoint objects, blob files inside savepoints and the interplay '
+            'index oid in _modified, on normal return every index oid stored in this transaction; Connection.savepoint '
+            'proved - loads and stores redirected to the temporary store (built over the normal storage at the first '
+            'savepoint), the current changes stored through _commit, the connection\'s creating set and registered list '
+            'emptied, the Savepoint given (position, COPY of the index, COPY of the creating set).',
+    'note': 'The Savepoint classes, blob files inside savepoints and the interplay '
             'with cacheGC are covered by the bounded program harness only (labelled), not proved. TmpStore.reset/load/'
             'close are used through their contracts (A-PERSISTENT, A-PICKLECACHE, CONNINV assumed as in C11).',
     'design_ref': 'DESIGN.md section 5 C12',
@@ -353,8 +356,13 @@ PROPS['C17'] = {
             'blob.copyTransactionsFromTo proved: every transaction begun under its own tid/status, every record restored '
             'exactly once with its oid, tid, data and hint (as a blob iff it is one and the source has the file), voted '
             'and finished; BaseStorage.copy (storages without blobs) proved likewise, incl. the tid handed to tpc_begin: the '
-            'source transaction\'s own while tids grow, a later stamp otherwise.',
-    'note': 'FileIterator.__next__/_skip_to_start, the record iterator and fsrecover.recover as a '
+            'source transaction\'s own while tids grow, a later stamp otherwise; the iterators themselves: '
+            'FileIterator._skip_to_start proved to reach the first transaction with tid >= start whichever scan the '
+            'time heuristic picks, FileIterator.__next__ to yield the transaction it stands on (tid, status, metadata, '
+            'record range) and to end exactly at the end of the file, past an INCLUSIVE stop, or at a checkpoint; '
+            'TransactionRecordIterator.__next__ to yield oid, tid, the data of the revision (own payload / end of the '
+            'back-pointer chain / None) and as hint the tid of the record the back pointer names.',
+    'note': 'FileIterator.__init__ and fsrecover.recover as a '
             'whole are covered by the bounded harness only; fsrecover.truncate, _txn_find (at restore\'s call site) and the '
             'source iterator of copyTransactionsFromTo (A-ITER) are assumed contracts.',
     'design_ref': 'DESIGN.md section 5 C17',
@@ -466,7 +474,9 @@ PROPS['C06'] = {
             'the same undo is compared against the staged record. The MVCC undo adapter is proved to hand the undone '
             'oids to the invalidation callback from inside the storage\'s finish, before the data becomes loadable. '
             '_txn_undo_write proved to refuse (UndoError, nothing staged, record loop never reached) every transaction '
-            'whose status is not the undoable one - packed, undone, checkpoint.',
+            'whose status is not the undoable one - packed, undone, checkpoint; UndoSearch._readnext (undoLog/undoInfo) '
+            'proved to walk to the transaction that ended at its position, to STOP the search at a packed transaction, to '
+            'skip one whose status is not blank, and to describe the transaction by an id derived from its own tid.',
     'note': 'FileStorage.undo/_txn_undo/_txn_undo_write (transaction walk, writing the records, blob copies), '
             'DB.undo/TransactionalUndo resource manager, undoLog/undoInfo and MappingStorage are covered by the '
             'bounded harness only. Assumes A-RESOLVER for the class merge.',
